@@ -214,6 +214,12 @@ class Ctx(object):
         self.known = [f for f in load_known_findings()
                       if f["property"] == pid and f.get("status") == "known"]
         self._replay_n = 0
+        import glob
+        for old in glob.glob(os.path.join(VERIF, "replays", pid, "%s-s%d-*.json" % (tier, seed))):
+            try:
+                os.unlink(old)
+            except OSError:
+                pass
 
     # -- counting ---------------------------------------------------------
     def count(self, key, n=1):
